@@ -2,5 +2,8 @@ CHECKS = {
  "C20": {"text": "Decides, for every path through the set-up code, that the names for which array-pointer set-up is generated (signature arrays and arrays of precomputed symbols, destination and every source; stepper arrays) are a subset of the names validated before compilation, that unknown array names raise before any look-up, that the error names equation and missing set, and that validation dominates compilation. Exhaustive over the emit sites of the Cython back end; it does not execute anything.",
          "note": "Trusts CPython ast/Mako lexer; getfullargspec returns the written parameter names; GPU back ends out of scope.",
          "technique": "tag dataflow (SIG/PRE x S/D) with inlining + CFG dominance over helper code and Mako template"},
+ "C06": {"text": "Decides structural necessary conditions of coherence over all ~50 methods of ParticleArray: per-property maps (default_values, stride, output_property_arrays) are updated wherever properties is deleted from / rebound / inserted into; every sized carray operation, slice bound and element loop on a property array is scaled by the stride looked up for that same key; count-changing mutators visit every property on every path; alignment follows every size change (CFG must-pass); pickle record keys agree with add_property/add_constant. It does not decide equality with a record-list model over histories.",
+         "note": "Trusts the Cython parser and the documented behaviour of cyarray's carray methods; GPU helper paths out of scope.",
+         "technique": "AST/CFG rules over the Cython parse tree lowered to Python ast: key-provenance of stride values, co-indexed-map update rule, must-pass-through"},
 }
 NOT_APPLICABLE = {}
